@@ -87,7 +87,7 @@ def run_one(binary, args, stdin, env, cwd=None, factor=1):
     return p.returncode, p.stdout, p.stderr
 
 
-def run_cases(ctx, cases, tag, binary=None, env=None):
+def run_cases(ctx, cases, tag, binary=None, env=None, confirm=True):
     binary = binary or lib.ledger_bin()
     env = env or lib.ledger_env()
     jobs = []
@@ -100,7 +100,7 @@ def run_cases(ctx, cases, tag, binary=None, env=None):
             c.result = f.result()
     # a timeout seen under full load is confirmed by running the case again with few
     # neighbours and twice the time
-    again = [(c, a, d) for c, a, d in jobs if c.result[0] == 'timeout']
+    again = [(c, a, d) for c, a, d in jobs if c.result[0] == 'timeout' and confirm]
     if again:
         with concurrent.futures.ThreadPoolExecutor(max_workers=4) as ex:
             futs = [ex.submit(run_one, binary, a, c.stdin, env, d, 2) for c, a, d in again]
@@ -827,7 +827,7 @@ def reduce_case(ctx, case, want, budget=40, binary=None, env=None, sanitizer=Fal
         return
     saved = TIMEOUT
     if want == 'timeout':
-        TIMEOUT, budget = (3 if sanitizer else 0.7), 12
+        TIMEOUT, budget = (3 if sanitizer else 0.7), 10
     try:
         j = case.journal if isinstance(case.journal, bytes) else case.journal.encode('latin-1')
         lines = j.split(b'\n')
@@ -835,7 +835,7 @@ def reduce_case(ctx, case, want, budget=40, binary=None, env=None, sanitizer=Fal
 
         def still(lines_, args_):
             c2 = Case(case.construct, b'\n'.join(lines_), args_, case.stdin, files=case.files, repl=case.repl)
-            run_cases(ctx, [c2], 'red', binary, env)
+            run_cases(ctx, [c2], 'red', binary, env, confirm=False)
             return symptom(c2, sanitizer) == want
         used = 0
         # options first (cheap, and they name the construct)
@@ -989,7 +989,8 @@ def mutation(ctx, res, n, binary=None, env=None, sanitizer=False, tag='mut'):
             want = symptom(c, sanitizer)
             if want and want != 'error-with-status-0':
                 reduce_case(ctx, c, want, binary=binary, env=env, sanitizer=sanitizer)
-                vs = judge(c_rerun(ctx, c, binary, env), sanitizer) or vs
+                if want != 'timeout':
+                    vs = judge(c_rerun(ctx, c, binary, env), sanitizer) or vs
             loc = None
             if want and (want.startswith('signal') or want == 'timeout'):
                 loc = locate(ctx, c, binary, env, want)
